@@ -215,7 +215,7 @@ def run_property(pid, tier, seed):
             payload = {'property': pid, 'clause': g['name'], 'kind': 'ground', 'detail': g.get('detail'),
                        'input': g.get('input'), 'kind_of_replay': 'ground check on module constants of the running code'}
             p = core.write_replay(pid, g['name'], payload)
-            violations.append({'clause': g['name'], 'replay': p, 'found': True})
+            violations.append({'clause': g['name'], 'replay': p, 'found': g.get('input') is not None})
     if floor_res:
         seen_clause = set()
         for v in floor_res.get('violations', []):
